@@ -17,11 +17,11 @@ import (
 // entry is one pool element: a lattigo object, its model vector over Z_t and a hard bound B on the infinity norm of
 // v = [T * Dec(ct)]_Q (centred), the quantity that must stay below Q/2 for decoding to be exact.
 type entry struct {
-	ct   *rlwe.Ciphertext
-	pt   *rlwe.Plaintext
-	vals []uint64
-	B    *big.Int
-	dead bool // noise bound over budget: no claim is made about it and it is not used any more
+	ct      *rlwe.Ciphertext
+	pt      *rlwe.Plaintext
+	vals    []uint64
+	B       *big.Int
+	dead    bool // noise bound over budget: no claim is made about it and it is not used any more
 	flipped bool // plaintext encoded in the other domain (IsBatched differs from the program's)
 }
 
